@@ -163,12 +163,12 @@ pub fn run_cov(c: &CovCase, work: &str, uid: &str) -> (Result<(), String>, Vec<u
         }
     }));
     if let Some(p) = prev {
-        let _ = std::fs::remove_file(p);
+        crate::p_file::remove_input(&p);
     }
     let out = std::fs::read(format!("{}/kmers.vectors", dir)).unwrap_or_default();
-    let _ = std::fs::remove_file(&inp);
+    crate::p_file::remove_input(&inp);
     if let Some(a) = alt {
-        let _ = std::fs::remove_file(a);
+        crate::p_file::remove_input(&a);
     }
     let _ = std::fs::remove_dir_all(&dir);
     (result, out)
